@@ -1,7 +1,7 @@
 (* TopLevel.v — what the two interpreter invariants say when control is back at the top level (between two
    top-level operations of a program): quiescence (C11), no panic (C18), nothing left unresolved (C02 d). *)
 From Cobweb Require Import Machine.
-From CobwebProofs Require Import ListLemmas Closed RunnerInv Frames OnceInv TicketInv.
+From CobwebProofs Require Import StateInv ListLemmas Closed RunnerInv Frames OnceInv OnceRuns PayloadSpec TicketInv.
 Require Import Coq.Sorting.Permutation.
 
 Section Top.
@@ -37,7 +37,7 @@ Proof.
   destruct (Hgen (map snd (p_wr P) ++ map (fun x => fst (snd x)) (p_xr P)) init_world) as (HK & Hnt & HCi);
     [reflexivity|intros t cb Hcb; discriminate Hcb|intros t Ht; exfalso; apply Ht; reflexivity|].
   destruct (kview_proj _ _ HK) as (K1 & K2 & K3 & K4 & K5 & K6).
-  split; [|split; [|split; [|split; [exact HCi|split; [exact Hsa|exact (ic_keys _ _ HI)]]]]].
+  split; [|split; [|split; [|split; [exact HCi|split; [split; [exact Hsa|exact (ic_keys _ _ HI)]|intros t cb Hcb Ho; rewrite (Hnt _ _ Hcb); exact (proj1 (proj1 (proj2 (init_counts P)) t cb Hcb))]]]]].
   - split.
     + constructor; cbn [flat_map]; unfold keys; rewrite ?K2, ?K3, ?K4, ?K5; cbn; try constructor. intros k [].
     + eapply GInv_kview; [exact HK|]. constructor; cbn; try (intros; contradiction); constructor.
@@ -106,5 +106,49 @@ Proof.
   intros E. unfold run in E. destruct (init_invcore P) as (HI & HC & HB).
   pose proof (tops_invariant fuel (p_top P) 0 _ HI HC HB init_TI) as Hp. rewrite E in Hp.
   destruct Hp as (_ & _ & _ & ((_ & G) & _)). split; [exact (g_exact _ _ G)|exact (g_uniq _ _ G)].
+Qed.
+
+Ltac bind_inv E w1 E1 :=
+  match type of E with
+  | bind ?r _ = Ok _ => destruct r as [w1| |] eqn:E1; cbn [bind] in E; [|discriminate E|discriminate E]
+  end.
+(* C15: once the wrapper of a one-off reactor has run its inner system, the reactor entity is dead *)
+Theorem once_entity_gone f t cl w w' cb tk : alookup t (cbs w) = Some cb -> cb_once cb = Some tk -> cb_taken cb = false ->
+  exec P f (ICallback t cl) w = Ok w' -> is_alive t w' = false.
+Proof.
+  intros H1 H2 H3 E. destruct f as [|f]; [discriminate E|]. rewrite (unspent_wrapper_steps P f t cl w cb tk H1 H2 H3) in E.
+  bind_inv E w1 E1. bind_inv E w2 E2. inversion E; subst. clear E.
+  assert (Ha2 : alive w2 = alive (despawn t w1)).
+  { destruct f as [|f1]; [discriminate E2|]. cbn [exec] in E2. bind_inv E2 w3 E3.
+    destruct f1 as [|f2]; [discriminate E3|]. cbn [exec prepare_cmd] in E3.
+    destruct tk as [ts s]. cbn [apply_prim] in E3.
+    destruct f2 as [|f3]; [discriminate E3|]. cbn [exec] in E3. inversion E3; subst. clear E3.
+    cbn [exec] in E2. inversion E2; subst. exact (f_equal snd (sview_revoke_all s ts (despawn t w1))). }
+  assert (Ha : alive (once_finish t tk w2) = alive w2) by (unfold once_finish; destruct (alookup t (cbs w2)); reflexivity).
+  unfold is_alive. rewrite Ha, Ha2. apply dead_after_despawn.
+Qed.
+
+(* C15: over whole runs, for every reactor that exists or ever existed: the inner system of a one-off wrapper was started
+   at most once (g_oruns gets one entry per start, written by body_sample next to the EvRun line) *)
+Lemma init_oruns : g_oruns (install_static P init_world) = [].
+Proof.
+  unfold install_static.
+  assert (Hgen : forall l w, g_oruns w = [] -> g_oruns (fold_left (fun w s => (reserve s w) <| storage ::= aset s true |> <| cbs ::= aset s (mkCb None 0 0 false true) |> <| spawned ::= cons s |>) l w) = []).
+  { induction l as [|s l IH]; intros w H; cbn [fold_left]; [exact H|]. apply IH. cbn [g_oruns set]. rewrite (g_oruns_kview _ _ (kview_reserve s w)). exact H. }
+  apply Hgen. reflexivity.
+Qed.
+Theorem once_inner_starts_at_most_once fuel w' : run P fuel = Ok w' -> forall t, (oc t w' <= 1)%nat.
+Proof.
+  intros E t.
+  assert (HO : OH t w').
+  { unfold run in E. eapply run_tops_closed; [apply OH_closed| |exact E].
+    destruct (init_counts P) as (_ & _ & J3). unfold OH, oc. rewrite init_oruns. split; [intros Hn; split; [reflexivity|apply J3; exact Hn]|left; reflexivity]. }
+  destruct HO as [_ [Hz|[Ho _]]]; lia.
+Qed.
+(* ... and while its record exists its Local is 0 before the inner system is taken and at most 1 afterwards *)
+Theorem once_record_bound fuel w' : run P fuel = Ok w' -> forall t, OR t w'.
+Proof.
+  intros E t. unfold run in E. eapply run_tops_closed; [apply OR_closed| |exact E].
+  intros cb0 Hcb0 _. rewrite (proj1 (proj1 (proj2 (init_counts P)) t cb0 Hcb0)). destruct (cb_taken cb0); [lia|reflexivity].
 Qed.
 End Top.
